@@ -23,6 +23,19 @@ class SchedLock:
 
     def acquire(self, *a, **k):
         t = self.sch.current()
+        # acquire(blocking, timeout) / acquire(block, timeout): a wait that is bounded may expire whenever the lock is held
+        # by another thread (a schedule in which the holder is slow).  The scheduler explores that outcome only when asked
+        # (expire_bounded), at most three times per thread and run, and remembers that a bounded wait was seen at all.
+        blocking = a[0] if a else k.get("blocking", k.get("block", True))
+        timeout = a[1] if len(a) > 1 else k.get("timeout", None)
+        bounded = (not blocking) or (timeout is not None and timeout >= 0)
+        if bounded:
+            self.sch.saw_bounded = True
+            if self.owner is not None and self.owner != t:
+                n = self.sch.expiries.get(t, 0)
+                if (not blocking) or (self.sch.expire_bounded and n < 3):
+                    self.sch.expiries[t] = n + 1
+                    return False
         while self.owner is not None and self.owner != t:
             self.sch.block(t)
         self.owner = t
@@ -48,6 +61,9 @@ class Scheduler:
     def __init__(self, opcodes=False, step_timeout=1.5):
         self.opcodes = opcodes
         self.step_timeout = step_timeout
+        self.saw_bounded = False        # some acquire of the class lock had a timeout / was non-blocking (sticky)
+        self.expire_bounded = False     # let such waits expire while the lock is held by another thread
+        self.expiries = {}
 
     # ---- worker side ---------------------------------------------------------------------
     def current(self):
@@ -120,6 +136,7 @@ class Scheduler:
         self.blocked = set()
         self.lock_owner = None
         self.saw_block = False
+        self.expiries = {}
         self.events = []
         self.steps = {t: 0 for t in fns}
         had_lock = "_CACHE_LOCK" in vars(Av)
